@@ -18,7 +18,8 @@ for sid in sorted(os.listdir(f"{V}/seeded")):
     if only and sid not in only: continue
     d = f"{V}/seeded/{sid}"; meta = json.load(open(f"{d}/meta.json"))
     props = checks or meta.get("run_checks") or [meta["property"]]
-    ap = sh(f"git -C {R} apply {d}/patch.diff")
+    first = f"{d}/patch_rebased.diff" if os.path.exists(f"{d}/patch_rebased.diff") else f"{d}/patch.diff"
+    ap = sh(f"git -C {R} apply {first}")
     if ap.returncode != 0:
         ap = sh(f"git -C {R} apply --3way {d}/patch.diff")
         if ap.returncode != 0:
